@@ -162,7 +162,7 @@ func genSchemas(repo, out string, man *[]manifestEntry) (err error) {
 	if lerr != nil {
 		return lerr
 	}
-	type ent struct{ key, coq, def, pos string }
+	type ent struct{ key, coq, def, pos, code, dcode string }
 	var ents []ent
 	for _, p := range pkgs {
 		if len(p.Errors) > 0 {
@@ -190,6 +190,7 @@ func genSchemas(repo, out string, man *[]manifestEntry) (err error) {
 				if !ok {
 					return fmt.Errorf("%s: generated codec for a non-struct type", named.String())
 				}
+				fnSuffix := strings.TrimPrefix(fd.Name.Name, "encodeSize")
 				short := p.Name + "." + named.Obj().Name()
 				fields, omit := structFields(st, short)
 				o := "None"
@@ -198,14 +199,26 @@ func genSchemas(repo, out string, man *[]manifestEntry) (err error) {
 				}
 				coq := "schema_" + p.Name + "_" + named.Obj().Name()
 				def := fmt.Sprintf("Definition %s : msg_schema :=\n  {| m_fields := [%s];\n     m_omit := %s |}.\n", coq, strings.Join(fields, ";\n                 "), o)
-				ents = append(ents, ent{short, coq, def, strings.TrimPrefix(filepath.ToSlash(fn), repo+"/")})
+				cf, co := schemaFromEncoder(p, fnSuffix)
+				cos := "None"
+				if co != "" {
+					cos = "Some " + co
+				}
+				code := fmt.Sprintf("Definition code_%s : msg_schema :=\n  {| m_fields := [%s];\n     m_omit := %s |}.\n", coq, strings.Join(cf, ";\n                 "), cos)
+				df, do := schemaFromDecoder(p, fnSuffix)
+				dos := "None"
+				if do != "" {
+					dos = "Some " + do
+				}
+				dcode := fmt.Sprintf("Definition dcode_%s : msg_schema :=\n  {| m_fields := [%s];\n     m_omit := %s |}.\n", coq, strings.Join(df, ";\n                 "), dos)
+				ents = append(ents, ent{short, coq, def, strings.TrimPrefix(filepath.ToSlash(fn), repo+"/"), code, dcode})
 			}
 		}
 	}
 	sort.Slice(ents, func(i, j int) bool { return ents[i].key < ents[j].key })
 	var b strings.Builder
 	b.WriteString("(* GENERATED by /verif/translator from /repo — do not edit.\n   Binary schemas of the types that have a skyencoder-generated codec, derived\n   from the struct definitions and `enc` tags as encoder.go interprets them. *)\nFrom Coq Require Import ZArith List String.\nFrom Sky Require Import Model.Codec.\nImport ListNotations.\nOpen Scope Z_scope.\n\n")
-	var names []string
+	var names, codeNames, dcodeNames []string
 	var myman []manifestEntry
 	defer func() {
 		if err == nil {
@@ -215,12 +228,18 @@ func genSchemas(repo, out string, man *[]manifestEntry) (err error) {
 	}()
 	for _, e := range ents {
 		b.WriteString(e.def + "\n")
+		b.WriteString("(* recovered from the body of the generated encoder *)\n" + e.code + "\n")
+		b.WriteString("(* recovered from the body of the generated decoder *)\n" + e.dcode + "\n")
+		dcodeNames = append(dcodeNames, fmt.Sprintf("(\"%s\"%%string, dcode_%s)", e.key, e.coq))
+		codeNames = append(codeNames, fmt.Sprintf("(\"%s\"%%string, code_%s)", e.key, e.coq))
 		names = append(names, fmt.Sprintf("(\"%s\"%%string, %s)", e.key, e.coq))
 		me := manifestEntry{Coq: "Gen.Schemas." + e.coq, File: e.pos, Pos: e.pos, SrcSHA: fmt.Sprintf("%x", sha256.Sum256([]byte(e.def)))}
 		*man = append(*man, me)
 		myman = append(myman, me)
 	}
 	fmt.Fprintf(&b, "Definition all_schemas : list (string * msg_schema) :=\n  [%s].\n", strings.Join(names, ";\n   "))
+	fmt.Fprintf(&b, "\n(* the schemas recovered from the generated encoders' code, same order *)\nDefinition code_schemas : list (string * msg_schema) :=\n  [%s].\n", strings.Join(codeNames, ";\n   "))
+	fmt.Fprintf(&b, "\n(* the schemas recovered from the generated decoders' code, same order *)\nDefinition dcode_schemas : list (string * msg_schema) :=\n  [%s].\n", strings.Join(dcodeNames, ";\n   "))
 	ch, werr := writeIfChanged(filepath.Join(out, "Schemas.v"), []byte(b.String()))
 	if werr != nil {
 		return werr
